@@ -1,17 +1,172 @@
-// C13 (testing in support): hostile Drafty documents through drafty.PlainText and drafty.Preview,
-// the two functions which render client-controlled message content into push-notification previews
-// (server/push/fcm/payload.go).  Request: "D <preview length> <hex of the JSON content>".
-// Answer: "ok <plain status> <preview status>" | "jsonerr" | "HANG"; a panic is turned into
-// "PANIC ..." by main.go's safe().
+// C13: hostile Drafty documents through drafty.PlainText and drafty.Preview, the two functions which
+// render client-controlled message content into push-notification previews
+// (server/push/fcm/payload.go).
+//
+// Request: "D <preview length> <hex of the JSON content>".
+// Answer:  "jsonerr" | "HANG" | "R <decoded> <plain> <preview>" where
+//
+//	decoded = what decodeAsDrafty makes of the content, computed by this driver (JSON decoding is
+//	          outside the Coq model coq/Pure/Drafty.v, which starts from the decoded document):
+//	          "nil" | "derr:I" | "derr:U" | "doc:<txt>;<fmt>;<ent>"
+//	          txt = "n" (no txt: nil grapheme container) | "t" + hex of the grapheme clusters joined by "."
+//	          fmt = "-" | entries "<tp hex>/<at>/<len>/<key>" joined by ","
+//	          ent = "-" | entries "<tp hex>/n" or "<tp hex>/d/<url>/<name>" (x = no string value, s<hex>)
+//	plain   = outcome of drafty.PlainText: "ok:<hex>" | "err:I" | "err:U" | "err:?" | "PANIC:<hex of the message>"
+//	preview = outcome of drafty.Preview:   "ok:<txt hex>;<fmt>;<ent types hex joined by ,>" | "empty" | "err:.." |
+//	          "PANIC:.." | "bad" (output is not a JSON document)
+//
+// Each of the two calls runs under its own recover: a panic is an answer (in production the push
+// goroutines have no recover and the process dies).
 package main
 
 import (
+	"encoding/hex"
 	"encoding/json"
 	"fmt"
+	"strconv"
+	"strings"
 	"time"
 
+	"github.com/rivo/uniseg"
 	"github.com/tinode/chat/server/drafty"
 )
+
+func c13hex(s string) string {
+	return hex.EncodeToString([]byte(s))
+}
+
+func c13hexd(s string) string {
+	if s == "" {
+		return "-"
+	}
+	return hex.EncodeToString([]byte(s))
+}
+
+// c13int is intFromNumeric for the types encoding/json produces.
+func c13int(v any) (int, bool) {
+	if v == nil {
+		return 0, true
+	}
+	f, ok := v.(float64)
+	if !ok {
+		return 0, false
+	}
+	return int(f), true
+}
+
+// c13decode mirrors decodeAsDrafty / decodeAsStyle / decodeAsEntity on a value produced by json.Unmarshal.
+func c13decode(content any) string {
+	if content == nil {
+		return "nil"
+	}
+	var txt = "n"
+	clusters := func(s string) string {
+		var cl []string
+		for state, remaining, cluster := -1, s, ""; len(remaining) > 0; {
+			cluster, remaining, _, state = uniseg.StepString(remaining, state)
+			cl = append(cl, c13hex(cluster))
+		}
+		return "t" + strings.Join(cl, ".")
+	}
+	var fmts, ents []string
+	switch tmp := content.(type) {
+	case string:
+		txt = clusters(tmp)
+	case map[string]any:
+		correct := 0
+		if t, ok := tmp["txt"].(string); ok {
+			txt = clusters(t)
+			correct++
+		}
+		if ifmt, ok := tmp["fmt"].([]any); ok {
+			for _, x := range ifmt {
+				if x != nil {
+					m, ok := x.(map[string]any)
+					if !ok {
+						return "derr:U"
+					}
+					tp, _ := m["tp"].(string)
+					at, ok := c13int(m["at"])
+					if !ok {
+						return "derr:I"
+					}
+					ln, ok := c13int(m["len"])
+					if !ok {
+						return "derr:I"
+					}
+					key := 0
+					if tp == "" {
+						key, ok = c13int(m["key"])
+						if !ok || key < 0 {
+							return "derr:I"
+						}
+					}
+					fmts = append(fmts, fmt.Sprintf("%s/%d/%d/%d", c13hex(tp), at, ln, key))
+				}
+				correct++
+			}
+		}
+		if ient, ok := tmp["ent"].([]any); ok {
+			for _, x := range ient {
+				if x != nil {
+					m, ok := x.(map[string]any)
+					if !ok {
+						return "derr:U"
+					}
+					tp, _ := m["tp"].(string)
+					if tp == "" {
+						return "derr:I"
+					}
+					data, _ := m["data"].(map[string]any)
+					if data == nil {
+						ents = append(ents, c13hex(tp)+"/n")
+					} else {
+						get := func(k string) string {
+							if s, ok := data[k].(string); ok {
+								return "s" + c13hex(s)
+							}
+							return "x"
+						}
+						ents = append(ents, c13hex(tp)+"/d/"+get("url")+"/"+get("name"))
+					}
+				}
+				correct++
+			}
+		}
+		if correct == 0 {
+			return "derr:U"
+		}
+	default:
+		return "derr:U"
+	}
+	j := func(l []string) string {
+		if len(l) == 0 {
+			return "-"
+		}
+		return strings.Join(l, ",")
+	}
+	return "doc:" + txt + ";" + j(fmts) + ";" + j(ents)
+}
+
+func c13err(err error) string {
+	switch err.Error() {
+	case "invalid format":
+		return "err:I"
+	case "content unrecognized":
+		return "err:U"
+	}
+	return "err:?"
+}
+
+// c13guard runs f under recover.
+func c13guard(f func() string) (res string) {
+	defer func() {
+		if r := recover(); r != nil {
+			res = "PANIC:" + c13hex(strings.ReplaceAll(fmt.Sprint(r), "\n", " "))
+		}
+	}()
+	return f()
+}
 
 func init() {
 	handlers["c13"] = func(w []string) string {
@@ -20,33 +175,59 @@ func init() {
 			return "jsonerr"
 		}
 		n := int(atoi(w[1]))
-		type res struct {
-			s string
-			p any
-		}
-		ch := make(chan res, 1)
+		ch := make(chan string, 1)
 		go func() {
-			defer func() {
-				if r := recover(); r != nil {
-					ch <- res{p: r}
-				}
-			}()
-			st := func(s string, err error) string {
+			dec := c13guard(func() string { return c13decode(content) })
+			a := c13guard(func() string {
+				s, err := drafty.PlainText(content)
 				if err != nil {
-					return "err"
+					return c13err(err)
 				}
-				return fmt.Sprintf("len%d", len(s))
-			}
-			a := st(drafty.PlainText(content))
-			b := st(drafty.Preview(content, n))
-			ch <- res{s: "ok " + a + " " + b}
+				return "ok:" + c13hexd(s)
+			})
+			b := c13guard(func() string {
+				s, err := drafty.Preview(content, n)
+				if err != nil {
+					return c13err(err)
+				}
+				if s == "" {
+					return "empty"
+				}
+				var out struct {
+					Txt string `json:"txt"`
+					Fmt []struct {
+						Tp  string `json:"tp"`
+						At  int    `json:"at"`
+						Len int    `json:"len"`
+						Key int    `json:"key"`
+					} `json:"fmt"`
+					Ent []struct {
+						Tp string `json:"tp"`
+					} `json:"ent"`
+				}
+				if err := json.Unmarshal([]byte(s), &out); err != nil {
+					return "bad"
+				}
+				var fmts, ents []string
+				for _, f := range out.Fmt {
+					fmts = append(fmts, c13hex(f.Tp)+"/"+strconv.Itoa(f.At)+"/"+strconv.Itoa(f.Len)+"/"+strconv.Itoa(f.Key))
+				}
+				for _, e := range out.Ent {
+					ents = append(ents, c13hexd(e.Tp))
+				}
+				j := func(l []string) string {
+					if len(l) == 0 {
+						return "-"
+					}
+					return strings.Join(l, ",")
+				}
+				return "ok:" + c13hexd(out.Txt) + ";" + j(fmts) + ";" + j(ents)
+			})
+			ch <- "R " + dec + " " + a + " " + b
 		}()
 		select {
 		case r := <-ch:
-			if r.p != nil {
-				panic(r.p)
-			}
-			return r.s
+			return r
 		case <-time.After(10 * time.Second):
 			return "HANG"
 		}
